@@ -755,7 +755,7 @@ Definition run_key (c : case) : bytes :=
   | _ => str_badcase
   end.
 
-Definition run_case_C06 (c : case) : bytes :=
+Definition run_case_C06_base (c : case) : bytes :=
   match c_kind c with
   | 1 => run_route c
   | 2 => run_disk c
